@@ -627,6 +627,13 @@ pub fn gen(prop: &str, seed: u64, index: u64, _tier: Tier) -> Case {
                 let m = *rng.pick(&[ModeS::Build, ModeS::Needed, ModeS::Verify, ModeS::Clean, ModeS::Build]);
                 let tn = !rng.chance(1, 6);
                 ops.push(run_op(&mut rng, m, &inputs, recursive, tn, &format!("op{k}")));
+                if matches!(m, ModeS::Build | ModeS::Needed) && rng.chance(1, 6) {
+                    // carry on from the tree an interrupted run leaves behind
+                    ops.push(Op::CrashImage {
+                        step: rng.below(40),
+                        torn: rng.next(),
+                    });
+                }
                 if rng.chance(1, 4) {
                     let g: Vec<String> = a.gen_all().into_iter().collect();
                     if !g.is_empty() {
